@@ -256,7 +256,7 @@ PROPS = {
     "C06": {
         "parts": [
             {"engine": "wire", "instrument": WIRE_INSTRUMENT, "cfgs": [""], "modreplace": WIRE_MODREPLACE, "share": 2, "chunk": 150},
-            {"engine": "fwdsim", "instrument": "internal/dnsserver/forward=dial", "cfgs": [""], "share": 1, "chunk": 1500},
+            {"engine": "fwdsim", "instrument": "internal/dnsserver/forward=dial", "cfgs": [""], "share": 1, "chunk": 1500, "det_trace": False},
         ],
         "det_runs": 12,
         "det_trace": False,
@@ -310,14 +310,18 @@ PROPS = {
         "engine": "fwdsim",
         "instrument": "internal/dnsserver/forward=dial",
         "cfgs": [""],
+        # Bursts of concurrent queries are real goroutines: which upstream takes
+        # which query of a burst is up to the Go scheduler, so the trace text
+        # may differ between processes while the decisions do not.
+        "det_trace": False,
         "quick": {"seconds": 30, "chunk": 1500, "runs": 60000},
         "thorough": {"seconds": 900, "chunk": 5000},
         "rule": ("one run = real forward.Handler with 1-3 main and 0-2 fallback UpstreamPlain upstreams (network any, 1s "
                  "timeout, backoff 0/1s/10s/1min) dialling scripted servers on the simulated network; 3-30 operations, each "
                  "preceded by tape-chosen state changes of the upstreams (up, silent, refusing, closing after read, wrong ID, "
                  "wrong name, wrong type, two questions, truncated-UDP-then-TCP, garbage, bare header, header counts without "
-                 "records, SERVFAIL, NXDOMAIN, duplicated reply) and a clock advance from {0, 0.1s, backoff/2, backoff-1ms, "
-                 "backoff, backoff+1ms, 31s}; an operation is a query with a unique name or a health-check round; every run "
+                 "records, reply cut inside the name or a record, error reply without question, SERVFAIL, NXDOMAIN, duplicated reply) and a clock advance from {0, 0.1s, backoff/2, backoff-1ms, "
+                 "backoff, backoff+1ms, 31s}; an operation is a query with a unique name (now and then too large for a datagram buffer, or too large to forward at all), a burst of 2-4 concurrent queries, or a health-check round; after an upstream has answered four exchanges in a row with one good UDP reply each, the next must not need a retry over TCP; every run "
                  "is non-trivial; distinct = distinct decision-sequence hash"),
         "assumptions": [
             "upstream states change between operations, not during one",
